@@ -365,7 +365,9 @@ def step (st : St) (line : String) : St × String :=
         match inst.info with
         | some e =>
           let key := unhex k
-          if e.kind == 1 && (e.akey.map tableBroken).getD true then (st, "unmodelled")
+          if e.kind == 1 && (e.akey.map tableDeclMissing).getD true then (st, "err:AttributeError")
+          else if (e.akey.bind fun t => brokenRowError t key).isSome then
+            (st, "err:internal:" ++ ((e.akey.bind fun t => brokenRowError t key).getD ""))
           else
             let o : Parser.Oracle := ⟨if f == "x" then none else parseVal f, if z == "x" then none else parseVal z⟩
             match Parser.attrValue (fun pv => setAttrE e inst.attrs key pv) o (unhex v) with
